@@ -93,6 +93,42 @@ def inline_constants(tree, src, path):
     return T().visit(tree)
 
 
+_NP_BINOPS = {"add": ast.Add, "subtract": ast.Sub, "multiply": ast.Mult, "divide": ast.Div, "true_divide": ast.Div}
+_NP_CMPOPS = {"equal": ast.Eq, "not_equal": ast.NotEq, "less": ast.Lt, "less_equal": ast.LtE, "greater": ast.Gt,
+              "greater_equal": ast.GtE}
+
+
+def normalize_spellings(tree):
+    """numpy's function spellings of the arithmetic / comparison operators are read as the operators
+    (`np.multiply(2.0, x)` as `2.0 * x`, `np.not_equal(a, b)` as `a != b`, `np.negative(x)` as `-x`), and
+    `pattern.search(s) is None` as `not pattern.search(s)` -- so that the extractors see one spelling."""
+    class N(ast.NodeTransformer):
+        def visit_Call(self, node):
+            node = self.generic_visit(node)
+            f = node.func
+            if isinstance(f, ast.Attribute) and isinstance(f.value, ast.Name) and f.value.id in ("np", "numpy") \
+                    and not node.keywords:
+                if f.attr in _NP_BINOPS and len(node.args) == 2:
+                    return ast.copy_location(ast.BinOp(left=node.args[0], op=_NP_BINOPS[f.attr](), right=node.args[1]), node)
+                if f.attr in _NP_CMPOPS and len(node.args) == 2:
+                    return ast.copy_location(ast.Compare(left=node.args[0], ops=[_NP_CMPOPS[f.attr]()],
+                                                         comparators=[node.args[1]]), node)
+                if f.attr == "negative" and len(node.args) == 1:
+                    return ast.copy_location(ast.UnaryOp(op=ast.USub(), operand=node.args[0]), node)
+            return node
+
+        def visit_Compare(self, node):
+            node = self.generic_visit(node)
+            if (len(node.ops) == 1 and isinstance(node.ops[0], (ast.Is, ast.IsNot)) and isinstance(node.comparators[0], ast.Constant)
+                    and node.comparators[0].value is None and isinstance(node.left, ast.Call)
+                    and isinstance(node.left.func, ast.Attribute) and node.left.func.attr in ("search", "match", "fullmatch")):
+                if isinstance(node.ops[0], ast.Is):
+                    return ast.copy_location(ast.UnaryOp(op=ast.Not(), operand=node.left), node)
+                return node.left
+            return node
+    return ast.fix_missing_locations(N().visit(tree))
+
+
 def seg(src, node):
     """source text of a node; for a literal inlined by `inline_constants`, the literal's own text"""
     return getattr(node, "_lit_text", None) or ast.get_source_segment(src, node)
@@ -102,7 +138,7 @@ def parse(path, inline=True):
     src = open(path).read()
     tree = ast.parse(src)
     if inline:
-        tree = inline_constants(tree, src, path)
+        tree = normalize_spellings(inline_constants(tree, src, path))
     return tree, src
 
 
